@@ -38,3 +38,7 @@ meta = {
 json.dump(meta, open(DST + "/meta.json", "w"), indent=1)
 print("KEPT", DST, "caught_by", meta["caught_by"])
 PY
+# scratch copies are removed as soon as the verdict is recorded
+git -C /repo worktree remove --force "/tmp/mutcheck-$SLOT" 2>/dev/null; rm -rf "/tmp/mutcheck-$SLOT" /tmp/mutcheck-$SLOT.*.log
+git -C /repo worktree remove --force "/tmp/trial/$SLOT/repo" 2>/dev/null; rm -rf "/tmp/trial/$SLOT"
+git -C /repo worktree prune
